@@ -8,8 +8,12 @@ CFG = {
             "UseRecordMarking 25%, StartWithPortmapper 12% (flag true/false; binds port 111, counted 'unavailable' if it cannot), Listen "
             "without record marking 10% (negative control), refused calls 13% (empty mount path, negative port); port 0 / a fixed free "
             "port, Debug on/off, Hostname ''/localhost/127.0.0.1, AUTH_NONE / AUTH_SYS; the client (own code, RFC 1831 record marking) "
-            "sends NULL, MOUNT3 MNT, NFS3 GETATTR; Coq parses the raw reply bytes. Non-trivial = documented path with three accepted "
-            "replies; distinct = distinct case term (reply bytes included)",
+            "sends NULL, MOUNT3 MNT, NFS3 GETATTR; Coq parses the raw reply bytes. On the paths that use record marking the client "
+            "delivers its calls in varied TCP segmentations (TCP_NODELAY, 3 ms between pieces): whole records 10%, else uniformly byte at a "
+            "time / cut inside the record mark after 1, 2, 3 bytes / at the mark-payload boundary / inside the RPC header / "
+            "multi-fragment records (incl. empty fragments) / multi-fragment with the cut inside the 2nd mark / two pipelined calls "
+            "(NULL+MNT, GETATTR+NULL) whose boundary lies inside one piece / 1-4 random cuts; segmentation never changes the expected "
+            "outcome. Non-trivial = documented path with three accepted replies; distinct = distinct case term (reply bytes included)",
     "assumptions": [
         "loopback TCP available; StartWithPortmapper needs to bind port 111 (runs as root here; otherwise the path is reported unavailable)",
         "the MNT path exists in the exported filesystem (MNT resolves the client's path in the filesystem, not against Export's mountPath)",
